@@ -141,6 +141,7 @@ impl Prop for C11 {
         let max_s = if tier == Tier::Thorough { 24 } else { 12 };
         let mut p = CallSetParams::standard(max_s, 12);
         p.allow_ploidy = true;
+        p.allow_no_gt = true;
         p.kind_w = [4, 3, 2, 3, 1, 1, 3, 3, 1, 1, 3, 2];
         if idx % 16 == 15 {
             p.allow_ploidy = false;
@@ -187,7 +188,7 @@ impl Prop for C11 {
             items.push(Item::Rec {
                 contig: format!("chr{}", r.contig + 1),
                 pos: r.pos as usize,
-                g: r.gts.iter().map(|g| gt_to_g(g)).collect(),
+                g: r.gts.iter().map(|g| if r.no_gt { crate::simgeno::G_MISSING } else { gt_to_g(g) }).collect(),
             });
             kinds.push(r.kind);
         }
